@@ -212,6 +212,45 @@ for flavour in ("cif", "bcif"):
     R.check("containers behave as mutable mappings", f"{flavour} fresh containers are independent", {"flavour": flavour}, lambda flavour=flavour: fresh_instances(flavour))
 
 
+def built_from_the_same_dict(flavour, level):
+    """building a container from a dictionary leaves that dictionary as the caller made it (same keys, the very same
+    value objects), however many containers are built from it; a category built from it is a mapping of its own.
+    (Blocks and files *keep* the dictionary they are given - later edits of such a container show in it; that is how
+    the pinned tree is written and is not claimed either way.)"""
+    if flavour == "cif":
+        F, B, C = pdbx.CIFFile, pdbx.CIFBlock, pdbx.CIFCategory
+    else:
+        F, B, C = pdbx.BinaryCIFFile, pdbx.BinaryCIFBlock, pdbx.BinaryCIFCategory
+    if level == "category":
+        d = {"x": np.array(["1", "2"]), "y": ["u", "v"]}
+        make, new_value = C, np.array(["p", "q"])
+    elif level == "block":
+        d = {"cat_a": C({"x": np.array(["1", "2"])}), "cat_b": C({"y": np.array(["u", "v"])})}
+        make, new_value = B, C({"z": np.array(["7"])})
+    else:
+        d = {"b1": B({"cat_a": C({"x": np.array(["1", "2"])})}), "b2": B()}
+        make, new_value = F, B()
+    keys0, vals0 = list(d.keys()), list(d.values())
+    one, two = make(d), make(d)
+    if list(d.keys()) != keys0 or any(a is not b for a, b in zip(d.values(), vals0)):
+        return (f"{make.__name__}(d) changed the dictionary handed in: keys {list(d.keys())}, value types "
+                f"{[type(v).__name__ for v in d.values()]} (were {[type(v).__name__ for v in vals0]})")
+    if list(one.keys()) != keys0 or list(two.keys()) != keys0:
+        return f"{make.__name__}(d) has the keys {list(one.keys())}, the dictionary {keys0}"
+    if level == "category":
+        two["added"] = new_value
+        del two[keys0[0]]
+        if list(one.keys()) != keys0 or "added" in one or "added" in d or list(d.keys()) != keys0:
+            return f"editing one category built from a dictionary changed the other / the dictionary: keys {list(one.keys())}, {list(d.keys())} instead of {keys0}"
+    return None
+
+
+for flavour in ("cif", "bcif"):
+    for level in ("category", "block", "file"):
+        R.check("containers behave as mutable mappings", f"{flavour} containers built from the same dictionary", {"flavour": flavour, "level": level},
+                lambda flavour=flavour, level=level: built_from_the_same_dict(flavour, level))
+
+
 def mapping_protocol(make_file, make_block, make_cat, lazy):
     f = make_file()
     model = {}
